@@ -252,6 +252,51 @@ def r15_5(ctx):
         ctx.require(p.terminal == "return" and got_used == want_used and avail == want_free and len(rd) == 3, key,
                     f"{key}: host ends with groups {got_used!r} and free indices {avail!r}; the scan implies groups {want_used!r} and free {sorted(want_free)}",
                     func=f, trace=p.trace(30))
+    # a subscribe that runs to completion while a re-scan is suspended at one of its reads (the scan awaits once per table entry;
+    # zigpy adds groups whenever the application asks).  The NCP table is [free, g1, free]; the host view before the re-scan agrees
+    # with it.  The concurrent subscribe takes an index from whatever free set the object holds at that moment, programs it and
+    # records the group.  When the scan ends the host view must still agree with the NCP table.
+    for at in (1, 2):
+        for pick in (min, max):
+            world = {}
+
+            def scan_read(px_, t, a, k, fr, at=at, pick=pick):
+                i = a[0] if a else k.get("index")
+                ncp = world["ncp"]
+                me = fr.self_obj
+                if i == at and not world.get("done") and isinstance(me, Obj):
+                    world["done"] = True
+                    av, mc_ = me.fields.get("_available"), me.fields.get("_multicast")
+                    if not isinstance(av, set) or not isinstance(mc_, dict):
+                        raise AnalysisError("multicast collections are not a set / dict during the scan")
+                    if av:
+                        j = pick(av)
+                        av.discard(j)
+                        ncp[j] = (1, Sym("G"))
+                        mc_[Sym("G")] = (entry_obj(ctx, 1, Sym("G"), "entryG"), j)
+                        world["took"] = j
+                ep, g = ncp[i]
+                return Outcomes(OK((es["SUCCESS"], entry_obj(ctx, ep, g, f"e{i}"))))
+
+            px3 = PX(repo, models=[("self._ezsp.getConfigurationValue", Outcomes(OK((es["SUCCESS"], 3)))), ("self._ezsp.getMulticastTableEntry", scan_read)],
+                     inline=same_class())
+
+            def setup3():
+                world.clear()
+                world["ncp"] = {0: (0, Sym("z0")), 1: (1, Sym("g1")), 2: (0, Sym("z2"))}
+                return self_obj(cls, {"_multicast": {Sym("g1"): (entry_obj(ctx, 1, Sym("g1"), "old1"), 1)}, "_available": {0, 2}}), {}
+
+            for p in px3.explore(f, setup3):
+                ctx.paths += 1
+                st = p.store["self"]
+                mc, avail = st.get("_multicast"), st.get("_available")
+                ncp = world["ncp"]
+                want_used = {g: i for i, (ep, g) in ncp.items() if ep != 0}
+                want_free = {i for i, (ep, g) in ncp.items() if ep == 0}
+                got_used = {k: v[1] for k, v in mc.items()} if isinstance(mc, dict) else None
+                ctx.require(p.terminal == "return" and got_used == want_used and avail == want_free, "scan:subscribe-during-scan",
+                            f"a subscribe completed while the scan was suspended at the read of index {at} (it took index {world.get('took')!r}): the host ends with groups "
+                            f"{got_used!r} and free indices {avail!r}, the NCP table holds groups {want_used!r} and free {sorted(want_free)}", func=f, trace=p.trace(30))
     px2 = PX(repo, models=[("self._ezsp.getConfigurationValue", Outcomes(OK((es["ERR_FATAL"], 3))))], inline=same_class())
     for p in px2.explore(f, setup):
         st = p.store["self"]
@@ -400,3 +445,47 @@ def r15_8(ctx):
                     bad = f"after the sequence the host reports groups {groups} on indices {sorted(used)} with free {sorted(avail)}; expected groups {want_groups}"
             ctx.require(not bad and p.terminal == "return", f"sequence:unsubscribe-{'accepted' if unsub_answer.value == 0 else 'rejected'}",
                         f"subscribe g / unsubscribe g ({unsub_answer!r}) / subscribe g / subscribe h: {bad or p.value!r}", func=sub_f, trace=p.trace(30))
+    # longer histories against a simulated NCP table (every accepted write is applied to it with the entry's fields as they are at
+    # the time of the call): after every step the groups the host reports are exactly the entries programmed with a non-zero endpoint,
+    # at the indices the host records, and the free set is exactly the rest
+    G, H = 0x10, 0x20
+    histories = {"g+ g- h+ g+": [("s", G), ("u", G), ("s", H), ("s", G)],
+                 "g+ h+ g- h- h+ g+": [("s", G), ("s", H), ("u", G), ("u", H), ("s", H), ("s", G)],
+                 "g+ g- g+ h+ h- h+": [("s", G), ("u", G), ("s", G), ("s", H), ("u", H), ("s", H)]}
+    for hname, ops in histories.items():
+        world = {}
+
+        def wmodel(px_, t, a, k, fr):
+            idx_ = a[0] if a else k.get("index")
+            ent = a[1] if len(a) > 1 else k.get("value")
+            if isinstance(ent, Obj) and isinstance(idx_, int):
+                world["ncp"][idx_] = (ent.fields.get("endpoint"), ent.fields.get("multicastId"))
+            return Outcomes(OK((es["SUCCESS"],)))
+
+        pxh = PX(repo, models=[("self._ezsp.setMulticastTableEntry", wmodel)], inline=same_class())
+        pxh.inline.root = sub_f
+
+        def hentry():
+            world["ncp"] = {0: (0, 0), 1: (0, 0)}
+            world["log"] = []
+            me = self_obj(cls, {"_multicast": {}, "_available": {0, 1}})
+            pxh.top_frame = None
+            for op, g in ops:
+                pxh.emit("mark", f"{'subscribe' if op == 's' else 'unsubscribe'} 0x{g:x}")
+                pxh.call_function(sub_f if op == "s" else unsub_f, me, [g], {}, None)
+                mc_, av_ = me.fields.get("_multicast"), me.fields.get("_available")
+                if not isinstance(mc_, dict) or not isinstance(av_, set):
+                    raise AnalysisError("multicast collections are not a dict / set after an operation")
+                host = {int(k_): v_[1] for k_, v_ in mc_.items()}
+                ncp_used = {int(gg): i for i, (ep, gg) in world["ncp"].items() if ep not in (0, None)}
+                ncp_free = {i for i, (ep, gg) in world["ncp"].items() if ep in (0, None)}
+                if host != ncp_used or set(av_) != ncp_free:
+                    world["log"].append(f"after '{'subscribe' if op == 's' else 'unsubscribe'} 0x{g:x}': host reports {host} free {sorted(av_)}, "
+                                        f"the NCP table holds {ncp_used} free {sorted(ncp_free)}")
+            world["final"] = list(world["log"])
+            return me
+
+        for p in pxh._run(hentry):
+            ctx.paths += 1
+            bad = "; ".join(world.get("final", [])[:2]) if p.terminal == "return" else f"raises {p.value!r}"
+            ctx.require(not bad, f"history:{hname}", f"history {hname}: {bad}", func=sub_f, trace=p.trace(40))
